@@ -6,6 +6,7 @@ pub mod c06;
 pub mod c12;
 pub mod c13;
 pub mod c14;
+pub mod c32;
 
 macro_rules! table {
     ($ctx:expr, $rp:expr, $( $id:literal => $m:ident ),* $(,)?) => {
@@ -28,5 +29,6 @@ pub fn dispatch(ctx: &Ctx, replay: Option<&str>) -> i32 {
         "C12" => c12,
         "C13" => c13,
         "C14" => c14,
+        "C32" => c32,
     )
 }
